@@ -55,7 +55,20 @@ CLAIMED["C12"] = dict(
     note="Trusted: std::io::BufReader; harness retries Interrupted on byte-level calls as std consumers do. Known findings (Interrupted propagated by fill_buf scanners) are listed per reader kind in known_findings.json.",
     engine="seq-sim")
 
-NOT_YET = {p: "claimed in DESIGN.md; check under construction in this round (will move to checks when registered)" for p in ["C03","C14","C15","C16"]}
+CLAIMED["C14"] = dict(
+    category="fault_enumeration", design="DESIGN.md §8 C14",
+    technique="deterministic simulation with fault enumeration: every failing sink call index x error kind, disk-full budgets, Ok(0), short-write/Interrupted patterns against a scripted sink; /dev/full for path APIs",
+    text="For every writer kind the careful-user protocol is run against a scripted sink. Per generated model the fault-free run "
+         "counts the sink calls N, then every call index fails once (all N <= 400; boundary-biased + seeded subset above), with "
+         "rotating error kinds, sticky and transient, plus Ok(0), ~35 byte budgets (disk full mid-write) and short-write / "
+         "Interrupted patterns without hard fault. Oracle: a consumed fault must surface as Err from the protocol; without fault "
+         "the bytes equal the plain run, which decodes to exactly the model; index fs::write on /dev/full must fail. Complete for "
+         "the one-fault space of each generated model; models are sampled. The multithreaded BGZF writer is driven under "
+         "thread-sim (C03 engine).",
+    note="Trusted: the harness protocol per kind (DESIGN.md §12) is what a careful user does; no calls after the first Err. /dev/full is the real kernel device.",
+    engine="seq-sim + thread-sim")
+
+NOT_YET = {p: "claimed in DESIGN.md; check under construction in this round (will move to checks when registered)" for p in ["C03","C15","C16"]}
 
 NOT_APPLICABLE = {
     "C04": "pure function of (records, block layout, index geometry, region): no schedule, fault, crash point or history in the statement; input generation with a scan oracle is not deterministic simulation. Reader-state carry-over between seeks is decided in C02, delivery independence of queries in C12, corrupt indexes in C15.",
